@@ -33,7 +33,8 @@ typedef enum freevar_type
     FREEVAR_QUALIFIER = 4,
     FREEVAR_FORIN = 7,
     FREEVAR_FREEVAR = 5,
-    FREEVAR_FUNC = 6
+    FREEVAR_FUNC = 6,
+    FREEVAR_FUNC_SELF = 8 /* the enclosing function itself, not a slot of its frame */
 } freevar_type;
 
 typedef struct freevar_loc
